@@ -12,10 +12,15 @@ ASSUMPTIONS = ['lifecycle callbacks and processors are passive (they log, may ra
 
 def make(pid, tags, clauses, gen_kwargs, quick=300, thorough=6000):
     def generate(rng, tier):
-        for _ in range(quick if tier == 'quick' else thorough):
-            yield gen_world.gen_scenario(rng, **gen_kwargs)
+        # several parameter sets are used in turn (e.g. a family with raising callbacks)
+        families = gen_kwargs if isinstance(gen_kwargs, (list, tuple)) else [gen_kwargs]
+        for i in range(quick if tier == 'quick' else thorough):
+            yield gen_world.gen_scenario(rng, **families[i % len(families)])
 
     def project(obs):
+        # a call that raised has no return value (the model prints the value it was about to return)
+        obs = ['ret -' if o.startswith('ret ') and i and obs[i - 1].startswith('res raised') else o
+               for i, o in enumerate(obs)]
         return [o for o in obs if o.split()[0] in tags]
 
     def oracle(lines, obs):
